@@ -92,7 +92,7 @@ impl Kind {
 
 /// Description of a term. `name` for named atoms, `n` = interval value or image
 /// placeholder index, `kids` = components (images: WITHOUT the placeholder).
-#[derive(Clone, Debug, PartialEq, Eq, Hash, PartialOrd, Ord, Serialize, Deserialize)]
+#[derive(Clone, PartialEq, Eq, Hash, PartialOrd, Ord, Serialize, Deserialize)]
 pub struct D {
     pub k: Kind,
     #[serde(default, skip_serializing_if = "String::is_empty")]
@@ -104,6 +104,39 @@ pub struct D {
 }
 fn is_zero(n: &usize) -> bool {
     *n == 0
+}
+
+fn compact(f: &mut std::fmt::Formatter<'_>, k: Kind, name: &str, n: usize, kids: &[impl std::fmt::Debug]) -> std::fmt::Result {
+    write!(f, "{k:?}")?;
+    if k.is_named_atom() {
+        write!(f, "({name:?})")?;
+    } else if k == Interval {
+        write!(f, "({n})")?;
+    } else if k.is_image() {
+        write!(f, "@{n}")?;
+    }
+    if !kids.is_empty() {
+        write!(f, "[")?;
+        for (i, c) in kids.iter().enumerate() {
+            if i > 0 {
+                write!(f, ", ")?;
+            }
+            write!(f, "{c:?}")?;
+        }
+        write!(f, "]")?;
+    }
+    Ok(())
+}
+/// compact rendering, e.g. `Inh[SetExt[Word("a")], ImgExt@1[Word("r"), IVar("x")]]`
+impl std::fmt::Debug for D {
+    fn fmt(&self, f: &mut std::fmt::Formatter<'_>) -> std::fmt::Result {
+        compact(f, self.k, &self.name, self.n, &self.kids)
+    }
+}
+impl std::fmt::Debug for C {
+    fn fmt(&self, f: &mut std::fmt::Formatter<'_>) -> std::fmt::Result {
+        compact(f, self.k, &self.name, self.n, &self.kids)
+    }
 }
 
 impl D {
@@ -164,7 +197,7 @@ impl D {
 }
 
 /// canonical form: unordered nodes sorted + deduplicated, symmetric statements sorted.
-#[derive(Clone, Debug, PartialEq, Eq, Hash, PartialOrd, Ord, Serialize, Deserialize)]
+#[derive(Clone, PartialEq, Eq, Hash, PartialOrd, Ord, Serialize, Deserialize)]
 pub struct C {
     pub k: Kind,
     pub name: String,
